@@ -112,6 +112,11 @@ def h_fit_mle(h):
         h.close(d.parameters[p], fixed[p], "fixed-after-fit", rtol=1e-12, atol=0.0)
     if fam.cls == "LogNormalNormFitDistribution":
         return
+    if len(log) == 0 and fam.cls in ("NormalDistribution", "LogNormalDistribution"):
+        # a closed-form estimator (these two families have one): the free parameters are judged by C12's
+        # closed-form clause, the fixed ones above
+        c12._closed_form(h, fam, d, theta, S, data)
+        return
     h.check(len(log) == 1, "scipy-fit-called-once")
     if h.sym:
         h.check(log[0]["family"] == fam.scipy, "fitted-family")
